@@ -69,7 +69,8 @@ func (s *spySigner) Sign(_ io.Reader, content []byte) ([]byte, error) {
 	s.calls++
 	s.content = content
 	if s.fail {
-		return nil, errSpySign
+		// worst case: a failing signer hands back garbage together with its error
+		return s.sig, errSpySign
 	}
 	return s.sig, nil
 }
